@@ -445,7 +445,7 @@ where
           failure = f;
         }
       }
-      let exhaustive = failure.is_none();
+      let exhaustive = failure.is_none() && n > 0;
       SubOutcome {
         stats,
         failure,
